@@ -63,7 +63,7 @@ def seal(payload: bytes, key: bytes, iv: bytes, attrs, aad: bytes | None = None,
     return hdr + ct + aead_footer(tag), {"hdr_len": len(hdr), "ct_len": len(ct), "padding": padding}
 
 
-def keystore_text(key_id: uuid.UUID, data1: bytes, data2: bytes, *, mode="NONE", style=0, esc_case="esxi"):
+def keystore_text(key_id: uuid.UUID, data1: bytes, data2: bytes, *, mode="NONE", style=0, esc_case="esxi", order=(0, 1, 2, 3)):
     """esc_case: how the percent escapes of '=', '+', '/' are written - "esxi" (%3d lower, others as urllib writes them),
     "lower", "upper", "mixed" (RFC 3986: hex digits of an escape are case-insensitive) or "none" (base64 left unescaped)."""
     def enc(b):
@@ -78,7 +78,8 @@ def keystore_text(key_id: uuid.UUID, data1: bytes, data2: bytes, *, mode="NONE",
         if esc_case == "mixed":
             return q.replace("%3D", "%3d").replace("%2B", "%2B").replace("%2F", "%2f")
         return q
-    ced = f"keyId={enc(key_id.bytes)}:data1={enc(data1)}:data2={enc(data2)}:version=1"
+    pairs = [f"keyId={enc(key_id.bytes)}", f"data1={enc(data1)}", f"data2={enc(data2)}", "version=1"]
+    ced = ":".join(pairs[k] for k in order)
     if style == 0:
         return f'.encoding = "UTF-8"\nincludeKeyCache = "FALSE"\nmode = "{mode}"\nConfigEncData = "{ced}"\n'
     if style == 1:
